@@ -46,7 +46,8 @@ PROBES = ["reentrant_close_during_render", "render_fault_in_first_animation_fram
           "close_during_dummy_frame_state", "caller_owned_data_left_unfinalized",
           "finalized_by_garbage_collection", "stopiteration_from_definite_source",
           "double_close", "double_finalize", "interrupted_draw_write", "iterator_exhausted",
-          "setting_changed_mid_iteration", "keyboardinterrupt_in_render", "finalizer_raised"]
+          "setting_changed_mid_iteration", "keyboardinterrupt_in_render", "finalizer_raised",
+          "iterator_construction_rejected", "render_class_inheriting_its_data_namespace"]
 COMPONENTS = {
     "real": ["RenderData.finalize/__del__", "Renderable._init_render_/draw/render/__str__/"
              "__iter__/_animate_", "RenderIterator (__init__, _from_render_data_, __next__, "
@@ -93,16 +94,24 @@ def run(ch, ctx, fault=None):
                 k.seam("padding")
                 return super()._get_exact_dimensions_(render_size)
 
+        class Derived(SimR):
+            """inherits data namespace and finalizer; declares none of its own"""
+
         rends = []
         for j in range(ch.int("n_rend", 1, 3)):
+            SimR_ = SimR
+            if ch.bool("derived_class", 0.3):
+                SimR_ = Derived
+                ctx.probe("render_class_inheriting_its_data_namespace")
             kind = ch.pick("rkind", ("still", "anim", "anim", "indef"))
             size = ti.geometry.Size(ch.int("w", 1, 3), ch.int("h", 1, 2))
             if kind == "still":
-                rends.append(SimR(1, 1, size))
+                rends.append(SimR_(1, 1, size))
             elif kind == "anim":
-                rends.append(SimR(ch.int("n", 2, 4), ch.int("dur", 1, 20), size))
+                rends.append(SimR_(ch.int("n", 2, 4), ch.int("dur", 1, 20), size))
             else:
-                rends.append(SimR(R.FrameCount.INDEFINITE, 5, size, stream_len=ch.int("sl", 0, 3)))
+                rends.append(SimR_(R.FrameCount.INDEFINITE, 5, size,
+                                   stream_len=ch.int("sl", 0, 3)))
         ctx.op("renderables: %s" % [repr(r) for r in rends])
         if fault:
             ctx.op("fault: %r" % (fault,))
@@ -200,6 +209,21 @@ def run(ch, ctx, fault=None):
                     finally:
                         if too_big:
                             vt.resize(rows, cols)
+                elif op == "iter" and (not r.animated or ch.bool("rejected", 0.15)):
+                    # a construction the iterator itself rejects: nothing it may have set up by
+                    # then is left un-finalized
+                    if not r.animated:
+                        bad = ("not animated", lambda: RenderIterator(r))
+                    else:
+                        bad = ch.pick("bad_ctor", (
+                            ("loops=0", lambda: RenderIterator(r, loops=0)),
+                            ("cache=0", lambda: RenderIterator(r, cache=0)),
+                            ("cache=-3", lambda: RenderIterator(r, cache=-3))))
+                    desc = "RenderIterator(%r) rejected: %s" % (r, bad[0])
+                    ctx.probe("iterator_construction_rejected")
+                    op = "iter_rejected"
+                    bad[1]()
+                    raise Violation("invalid_iterator_arguments_accepted", {"op": desc}, "iter")
                 elif op == "iter":
                     if not r.animated:
                         continue
@@ -511,7 +535,8 @@ def run(ch, ctx, fault=None):
             if exc is not None:
                 owns_after_init = op == "draw" and fault_here and not finalizer_failed and \
                     type(exc).__name__ != "RenderSizeOutofRangeError"
-                if op in ("str", "render", "init_render_final") or owns_after_init:
+                if op in ("str", "render", "init_render_final", "iter_rejected") \
+                        or owns_after_init:
                     # these operations own the data (finalize=True): it must be final when they
                     # fail, not whenever the traceback happens to be collected (exc is still
                     # alive here and keeps the frames - and the data - referenced)
@@ -519,7 +544,9 @@ def run(ch, ctx, fault=None):
                         must_be_final(tok, "operation failed with %s" % type(exc).__name__, op)
                 expected_validation = op in ("draw", "init_render_final") and \
                     type(exc).__name__ == "RenderSizeOutofRangeError"
-                if op == "init_render_final" and type(exc) is StopIteration and not fault_here:
+                if op == "iter_rejected" and isinstance(exc, ValueError) and not fault_here:
+                    ctx.nontrivial = True
+                elif op == "init_render_final" and type(exc) is StopIteration and not fault_here:
                     ctx.nontrivial = True      # an exhausted INDEFINITE source says so
                 elif expected_validation:
                     ctx.probe("size_validation_failed_in_draw")
